@@ -23,6 +23,7 @@ func main() {
 	timeout := flag.Int("timeout", 0, "per-obligation solver timeout (s)")
 	verbose := flag.Bool("v", false, "print every obligation")
 	overlay := flag.String("overlay", "", "JSON file {path: replacement-file} applied to the loader (self-test patches)")
+	audit := flag.Bool("audit", false, "also run the type-invariant writer audit")
 	flag.Parse()
 
 	var ov map[string][]byte
@@ -54,7 +55,7 @@ func main() {
 		os.Exit(2)
 	}
 	p.LoadS = time.Since(t0).Seconds()
-	opts := govc.CheckOpts{Prop: *prop, Tier: *tier, OnlyFunc: *only, SMTDir: *smtdir, Verbose: *verbose}
+	opts := govc.CheckOpts{Prop: *prop, Tier: *tier, OnlyFunc: *only, SMTDir: *smtdir, Verbose: *verbose, Audit: *audit}
 	if *tier == "thorough" {
 		opts.TimeoutS = 120
 		opts.Confirm = true
